@@ -17,7 +17,11 @@ Section Fields.
   Hypothesis H_completed : forall m x, A m x (set_completed x true).
   Hypothesis H_failed : forall m x, A m x (set_failed x true).
   Hypothesis H_kids : forall m x a b, A m x (set_kids x a b).
-  Hypothesis H_block : forall m x a b, A m x (set_block x a b).
+  (* the three ways a block's lock / ended flags change: the lock is taken; End block(s) ends it; the lock is given back by a
+     block that has ended or had completed already *)
+  Hypothesis H_lock : forall m x, A m x (set_block x true (block_ended x)).
+  Hypothesis H_end : forall m x, A m x (set_block x (lock_acquired x) true).
+  Hypothesis H_unlock : forall m x, block_ended x = true \/ completed x = true -> A m x (set_block x false (block_ended x)).
   Hypothesis H_wait : forall m x w, A m x (set_wait x w).
   Hypothesis H_cond_keep : forall m x i r, A m x (set_cond x (activated x) i r).
   Hypothesis H_activate : forall m x,
@@ -70,7 +74,7 @@ Section Fields.
     eapply ok_trans; [|apply ok_unregister]. apply ok_set_ns. apply H_kids.
   Qed.
   Lemma ok_end_block s b : okS s (end_block p s b).
-  Proof. unfold end_block. eapply ok_trans; [|apply ok_abort]. apply ok_set_ns. apply H_block. Qed.
+  Proof. unfold end_block. eapply ok_trans; [|apply ok_abort]. apply ok_set_ns. apply H_end. Qed.
   Lemma ok_end_blocks l s : okS s (fold_left (end_block p) l s).
   Proof. apply (ok_fold _ (fun _ => True)); [intros; apply ok_end_block|apply Forall_forall; auto]. Qed.
   Lemma ok_reset_tree s a : (n_kind (nd p a) = KAlarm \/ exists nm, n_kind (nd p a) = KMacro nm) -> okS s (reset_tree p s a).
@@ -105,7 +109,7 @@ Section Fields.
                           | (eapply ok_trans; [|apply ok_mark_completed])
                           | (eapply ok_trans; [|apply ok_complete])
                           | (eapply ok_trans; [|apply ok_register])
-                          | (apply ok_set_ns; first [apply H_kids | apply H_block | apply H_wait | apply H_completed | apply H_failed
+                          | (apply ok_set_ns; first [apply H_kids | apply H_lock | apply H_end | apply H_wait | apply H_completed | apply H_failed
                                                     | apply H_cond_keep]) ].
 
   (* only the transitions of visit (FVisit n, FThr n) start a line, and only line n *)
@@ -122,9 +126,10 @@ Section Fields.
       + destruct (completed (st s n)); apply ok_refl.
       + destruct trailing; cbn [out_state]; apply ok_set_ns; [now apply H_blank_idle|now apply H_blank_start].
       + destruct (completed (st s n)); cbn [out_state]; ok.
-      + destruct (completed (st s n)); [cbn [out_state]; ok|]. destruct (block_ended (st s n)).
+      + destruct (completed (st s n)) eqn:Ec; [cbn [out_state]; apply ok_set_ns; apply H_unlock; right; exact Ec|].
+        destruct (block_ended (st s n)) eqn:Eb.
         * unfold block_release. cbn [out_state]. eapply ok_trans; [|apply ok_mark_completed]. apply ok_set_ns.
-          eapply H_trans; [apply H_block|]. eapply H_trans; [apply H_kids|apply H_completed].
+          eapply H_trans; [apply H_unlock; left; exact Eb|]. eapply H_trans; [apply H_kids|apply H_completed].
         * destruct (lock_acquired (st s n)); apply ok_refl.
       + cbn [out_state]. eapply ok_trans; [|apply ok_mark_completed]. eapply ok_trans; [|apply ok_complete].
         destruct (active_blocks p s) as [|old rest]; [apply ok_refl|]. eapply ok_trans; [apply ok_with_tag|apply ok_end_block].
@@ -169,12 +174,12 @@ Section Fields.
     - destruct (lock_acquired (st s n)); [apply ok_refl|]. unfold block_try. destruct (can_lock p s n); [|apply ok_refl].
       cbn [out_state]. eapply ok_trans; [|apply ok_with_tag]. ok.
     - apply ok_refl.
-    - unfold block_wait_end. destruct (block_ended (st s n)); [|apply ok_refl]. unfold block_release. cbn [out_state].
+    - unfold block_wait_end. destruct (block_ended (st s n)) eqn:Eb; [|apply ok_refl]. unfold block_release. cbn [out_state].
       eapply ok_trans; [|apply ok_mark_completed]. apply ok_set_ns.
-      eapply H_trans; [apply H_block|]. eapply H_trans; [apply H_kids|apply H_completed].
-    - unfold block_wait_end. destruct (block_ended (st s n)); [|apply ok_refl]. unfold block_release. cbn [out_state].
+      eapply H_trans; [apply H_unlock; left; exact Eb|]. eapply H_trans; [apply H_kids|apply H_completed].
+    - unfold block_wait_end. destruct (block_ended (st s n)) eqn:Eb; [|apply ok_refl]. unfold block_release. cbn [out_state].
       eapply ok_trans; [|apply ok_mark_completed]. apply ok_set_ns.
-      eapply H_trans; [apply H_block|]. eapply H_trans; [apply H_kids|apply H_completed].
+      eapply H_trans; [apply H_unlock; left; exact Eb|]. eapply H_trans; [apply H_kids|apply H_completed].
     - destruct (_ && _).
       + destruct (wait_start (st s n)); [apply ok_refl|]. destruct (n_kind (nd p n)); try apply ok_refl. destruct (0 <? dur - 1); apply ok_refl.
       + cbn [out_state]. ok.
